@@ -1247,6 +1247,27 @@ def _inline_in_block(stmts, helpers, caller, cls, rep: Report, failed: set):
                 rep.inlined.append((f"{cls + '.' if cls else ''}{_callee_name(st.iter, cls)[0]} (generator)", f"{cls + '.' if cls else ''}{caller.name}", getattr(st, "lineno", 0)))
                 changed = True
                 continue
+        # `if A and h(x): BODY` (no else) with a new statement helper h: `if A: if h(x): BODY` - the call is then the first thing its test evaluates
+        if isinstance(st, ast.If) and not st.orelse and isinstance(st.test, ast.BoolOp) and isinstance(st.test.op, ast.And) and len(st.test.values) >= 2:
+            def _is_stmt_helper(e):
+                e2 = e.operand if isinstance(e, ast.UnaryOp) and isinstance(e.op, ast.Not) else e
+                c = e2.value if isinstance(e2, ast.Await) else e2
+                if not isinstance(c, ast.Call):
+                    return False
+                nm = _callee_name(c, cls)[0]
+                return nm in helpers and helpers[nm] is not caller and _expr_helper(helpers[nm]) is None
+            ks = [k for k, v in enumerate(st.test.values) if k > 0 and _is_stmt_helper(v)]
+            if ks:
+                k = ks[0]
+                left = st.test.values[:k]
+                right = st.test.values[k:]
+                inner = ast.copy_location(ast.If(right[0] if len(right) == 1 else ast.BoolOp(ast.And(), right), st.body, []), st)
+                st.test = left[0] if len(left) == 1 else ast.BoolOp(ast.And(), left)
+                st.body = [inner]
+                ast.fix_missing_locations(st)
+                nb, _ch = _inline_in_block(st.body, helpers, caller, cls, rep, failed)
+                st.body = nb
+                changed = True
         # a helper call that is the first non-trivial thing an `if` test evaluates: hoisted into a local in front of the `if`
         if isinstance(st, ast.If):
             found = _first_call_in_test(st.test, helpers, cls, caller)
